@@ -8,13 +8,13 @@
    with production as the "release everything" script, the snapshot hook = SingletonHook, the
    state hook = Tick::cycle_with_initial, a slice = the synchronous product of its hooks) the
    four clauses are the four theorems below, each for ALL scripts of arrivals and decisions.
-   `_partial`: the hooks are modelled one kind at a time (TotalOrder batch hook and singleton
-   snapshot hook; not the NoOrder / keyed variants, which engine Sim covers), and "same point"
-   is the statement that a slice record is the synchronous product of one release per hook --
-   it does not say the simulator's scheduler runs the hooks of one tick together (engine Sim,
-   C36). *)
+   Second half of the file: the same clauses over engine Sim's model of the real simulator
+   hooks and run_hooks (all batch hook kinds, the singleton snapshot hook, run_hooks itself).
+   `_partial` (still missing, provable): per-key order of keyed TotalOrder batches over a whole
+   trajectory (engine Sim proves it per tick: keyed_total_per_key), monotonicity for the
+   KeyedSingletonHook / PassthroughSingletonHook snapshot variants. *)
 From Coq Require Import List NArith Bool Arith Sorted.
-From HV Require Import HydroB.ModelSlice HydroB.PSlice.
+From HV Require Import Sim.Model Sim.PHooks HydroB.ModelSlice HydroB.PSlice HydroB.SimSlice HydroB.PSimSlice.
 Import ListNotations.
 Open Scope nat_scope.
 
@@ -58,6 +58,54 @@ Theorem C31_state_carries : forall (S I O : Type) (body : S -> I -> S * O) ins s
       nth_error (run_state S I O body s ins) (Datatypes.S i) = Some (r', w', o') -> r' = w).
 Proof. exact state_carries. Qed.
 Print Assumptions C31_state_carries.
+
+(* ------------------------------------------------------------------------------------------
+   The same clauses over engine Sim's model of the REAL simulator code (sim/runtime.rs hooks,
+   sim/compiled.rs run_hooks; tied to the code by engine Sim's C36 check and, for slice-shaped
+   multi-hook multi-round runs, by this property's own check through harness/h_sim), for all
+   arrival and decision scripts. *)
+
+(* TotalOrder batch hook over the ticks of its slice: batches ++ queue = queue0 ++ arrivals *)
+Theorem C31_sim_batches_partition : forall tr q h',
+  Traj (HStreamT q None) tr h' ->
+  exists rem, h' = HStreamT rem None /\ map snd (outs_of tr) ++ rem = q ++ map snd (arrs_of tr).
+Proof. exact traj_total_partition. Qed.
+Print Assumptions C31_sim_batches_partition.
+
+(* every batch hook kind (TotalOrder, NoOrder, keyed TotalOrder, keyed NoOrder): each element is
+   in exactly one batch or still queued (multiset form) *)
+Theorem C31_sim_batches_conserved_partial : forall tr h h',
+  Traj h tr h' -> batch_kind h -> Forall (fun ao => arr_ok h (fst ao)) tr ->
+  Permutation.Permutation (outs_of tr ++ content h') (content h ++ arrs_of tr).
+Proof. exact traj_conserves. Qed.
+Print Assumptions C31_sim_batches_conserved_partial.
+
+(* snapshot hook (SingletonHook): released versions never decrease *)
+Theorem C31_sim_snapshots_monotone_partial : forall tr q last h',
+  Traj (HSingle q None last) tr h' ->
+  StronglySorted N.lt (olist last ++ q ++ vals (arrs_of tr)) ->
+  StronglySorted N.le (snaps_of tr) /\
+  Forall (fun v => forall l, last = Some l -> N.le l v) (snaps_of tr).
+Proof. exact traj_single_mono. Qed.
+Print Assumptions C31_sim_snapshots_monotone_partial.
+
+(* all hooks of one slice are taken at the same point: in every tick of a slice run the real
+   run_hooks procedure gives every hook exactly one decide-and-release step, and a hook's
+   column of the run is its own trajectory *)
+Theorem C31_sim_hooks_same_tick : forall sc hs outss hsf,
+  run_sim_slices hs sc = Ok (outss, hsf) ->
+  forallb idle hs = true -> forallb slice_kind hs = true ->
+  TrajL hs (combine (map fst sc) outss) hsf.
+Proof. exact run_sim_slices_traj. Qed.
+Print Assumptions C31_sim_hooks_same_tick.
+
+Theorem C31_sim_slice_columns : forall trl h hs hsf,
+  TrajL (h :: hs) trl hsf -> Forall (fun ao => fst ao <> []) trl ->
+  exists h' hs', hsf = h' :: hs' /\
+    Traj h (map (fun ao => (hd [] (fst ao), fst (hd ([], false) (snd ao)))) trl) h' /\
+    TrajL hs (map (fun ao => (tl (fst ao), tl (snd ao))) trl) hs'.
+Proof. exact TrajL_head_tail. Qed.
+Print Assumptions C31_sim_slice_columns.
 
 (* non-vacuity: a script with a forced release, a skipped snapshot state and a re-release *)
 Example C31_stream_example :
